@@ -2,8 +2,8 @@
 
 Model: coq/theories/Kernel/Progress.v = Kernel/Model.v composed with the sherwood queues of TQueue/Model.v (scheduler step =
 pop of the own queue / steal per the C scan; task bodies = finite lists of operations); theorems
-Properties/Properties_C04_progress.v (enabled_if_work, measure_decreases, every_spawn_runs_exactly_once,
-spawn_failure_leaves_no_trace, ...).
+Properties/Properties_C04_progress.v (queue_simulation, enabled_if_work_{own,pop,steal}, busy_worker_can_step, measure_decreases,
+executions_finite, every_spawn_runs_exactly_once (+ _maximal), spawn_failure_leaves_no_trace, ...).
 
 Tie: every real run of harness/c/c04_progress.c (= c04_kernel.c + end-of-run hooks + white-box sherwood queue accessor +
 fault injection into qthread_spawn's return-location preparation) is (a) accepted event by event by the kernel acceptor
@@ -188,18 +188,23 @@ def run(ctx, c04):
     t_start = time.time()
     rng = ctx.rng.fork()
     quick = ctx.tier == "quick"
-    pr = ctx.coq_properties("Properties/Properties_C04_progress.v")
     exe, drv = prepare(ctx)
+    # the theorems are re-checked (Print Assumptions of 16 theorems: ~9 s of coqc) while the scenarios run
+    import threading
+    from concurrent.futures import ThreadPoolExecutor
+    prbox = {}
+    th = threading.Thread(target=lambda: prbox.update(pr=ctx.coq_properties("Properties/Properties_C04_progress.v")))
+    th.start()
     scs = corpus(c04)
     r = rng.fork()
     # the victim holds exactly one unstealable and one or two stealable tasks (stranded work if the scan drops the last one)
     for layout in (["US", "SU", "USS", "SUS"] if quick else ["US", "SU", "USS", "SUS", "SSU", "UUS", "SUU", "USU", "S", "UUSS"]):
         for ch in ([None] if quick else [0, 1, 3]):
             scs.append(small_steal(c04, r, layout, ns=r.choice([2, 2, 3]), chunk=ch))
-    for i in range(3 if quick else 20):
+    for i in range(1 if quick else 20):
         scs.append(c04.gen_steal_scenario(r, r.choice([2, 3])))
     r = rng.fork()
-    configs = [(1, 1), (2, 2), (3, 1), (2, 1), (1, 3)] if quick else [(1, 1), (2, 1), (2, 2), (3, 1), (4, 1), (3, 2), (1, 4), (4, 2), (6, 1)]
+    configs = [(1, 1), (2, 2), (3, 1), (1, 3)] if quick else [(1, 1), (2, 1), (2, 2), (3, 1), (4, 1), (3, 2), (1, 4), (4, 2), (6, 1)]
     for (ns, nw) in configs:
         for i in range(1 if quick else 8):
             scs.append(c04.gen_scenario(r, ns, nw, "c04"))
@@ -210,11 +215,22 @@ def run(ctx, c04):
             scs.append(gen_failure_scenario(c04, r, ns, nw))
     corr, orc = [], []
     st = dict(runs=0, labels=0, quiescent_ok=0, failed_spawns=0, steals=0, profiles={}, nontrivial=0, waited_ms_max=0, samples=[])
-    for sc in scs:
-        if len(orc) >= 6 or len(corr) >= 6:
-            ctx.notes.append("progress: stopped after %d runs (enough failing cases collected)" % st["runs"])
-            break
+    def one(sc):
         res = run_real(c04, exe, sc)
+        acc = accept(drv, sc, res) if (res["status"] == "end" and res.get("header")) else None
+        return res, acc
+
+    pool = ThreadPoolExecutor(max_workers=3)
+    results = []
+    for k in range(0, len(scs), 3):
+        if len(results) and (sum(1 for (_, r, a) in results if r["status"] != "end" or not a or not a["ok"] or a["quiescent"] is not True) >= 6):
+            ctx.notes.append("progress: stopped after %d runs (enough failing cases collected)" % len(results))
+            break
+        chunk = scs[k:k + 3]
+        for sc, (res, acc) in zip(chunk, pool.map(one, chunk)):
+            results.append((sc, res, acc))
+    pool.shutdown()
+    for (sc, res, acc) in results:
         st["runs"] += 1
         st["profiles"][sc.profile] = st["profiles"].get(sc.profile, 0) + 1
         if res["status"] == "nostart":
@@ -232,7 +248,7 @@ def run(ctx, c04):
             corr.append(("progress: the real runtime did not reach quiescence on a script whose model run terminates (%s%s)" % (
                 res["status"], (", signal %d" % -res["rc"]) if res["status"] == "crash" and res["rc"] < 0 else ""), replay))
             continue
-        a = accept(drv, sc, res)
+        a = acc
         st["labels"] += a["labels"]
         if not a["ok"]:
             corr.append(("progress: " + (a["reason"] or "not accepted"), replay))
@@ -258,6 +274,8 @@ def run(ctx, c04):
             if len(st["samples"]) < 3:
                 st["samples"].append(dict(config=[sc.ns, sc.nw], profile=sc.profile, script=sc.lines()[1:5], steals=stolen, failed_spawns=nfail,
                                           descriptors=res["y"][0] if res["y"] else None))
+    th.join()
+    pr = prbox.get("pr") or {"file": "Properties/Properties_C04_progress.v", "ok": False, "log": "coq_properties did not return", "theorems": []}
     ctx.cov["progress"] = dict(
         runs=st["runs"], quiescent_ok_holds=st["quiescent_ok"], model_labels_accepted=st["labels"], failed_spawns_injected=st["failed_spawns"],
         tasks_taken_from_another_shepherds_queue=st["steals"], runs_with_steal_or_failed_spawn=st["nontrivial"], profiles=st["profiles"],
@@ -265,7 +283,7 @@ def run(ctx, c04):
         rule="every run: kernel acceptor + extracted quiescent_ok on the final kernel state and the white-box queue observations; "
              "non-trivial = at least one task dequeued by a shepherd other than the one it was enqueued on, or a failed spawn")
     ctx.assumptions += ["progress theorems: executions without qthread_disable_shepherd / qthread_yield_near; blocked tasks are released by the "
-                        "environment (C02/C03/C20) - hypothesis blocked_eventually_released; spawn failures are provoked by fault injection at "
+                        "environment (C02/C03/C20) - hypothesis `released` (or maximality w.r.t. the environment's release events); spawn failures are provoked by fault injection at "
                         "the qthread.c -> feb.c/syncvar.c call boundary (the real failure needs malloc failure or a 2^31-iteration lock timeout)"]
     return pr, corr, orc
 
